@@ -3,6 +3,7 @@ package main
 import (
 	"fmt"
 	"go/ast"
+	"go/constant"
 	"go/token"
 	"go/types"
 	"sort"
@@ -498,4 +499,91 @@ func ruleR10g(c *Ctx) {
 		c.check(np == 1 && okType, "R10g", "soymsg."+name+" inputs", f.Pos(), "the message node is the only input",
 			"the id / placeholder computation takes "+fmt.Sprint(np)+" inputs: with anything but the message as input (a cache, a registry, a counter) the id depends on what was processed before")
 	}
+}
+
+// R10i: in the fingerprint's hash, the block loop and the switch over what is left partition the input: if
+// the loop goes on while at least K bytes remain (or more than K), at most K-1 (or K) bytes are left, and
+// the switch has a case for every such count. A count without a case drops those bytes from the hash.
+func ruleR10i(c *Ctx) {
+	p := c.pkg("soymsg")
+	if p == nil {
+		return
+	}
+	info := p.TypesInfo
+	pairs := 0
+	for _, fd := range c.allFuncDecls("soymsg") {
+		for si, st := range fd.Body.List {
+			fs, ok := st.(*ast.ForStmt)
+			if !ok || fs.Cond == nil {
+				continue
+			}
+			be, ok := ast.Unparen(fs.Cond).(*ast.BinaryExpr)
+			if !ok {
+				continue
+			}
+			constOf := func(e ast.Expr) (int64, bool) {
+				tv, ok := info.Types[e]
+				if !ok || tv.Value == nil {
+					return 0, false
+				}
+				v, exact := constant.Int64Val(tv.Value)
+				return v, exact
+			}
+			remaining, max := "", int64(-1)
+			switch be.Op {
+			case token.LEQ, token.LSS: // X + K <= Y  /  X + K < Y
+				if sum, ok := ast.Unparen(be.X).(*ast.BinaryExpr); ok && sum.Op == token.ADD {
+					if k, ok := constOf(sum.Y); ok {
+						remaining = exprKey(be.Y) + " - " + exprKey(sum.X)
+						max = k - 1
+						if be.Op == token.LSS {
+							max = k
+						}
+					}
+				}
+			case token.GEQ, token.GTR: // len(S) >= K  /  len(S) > K
+				if k, ok := constOf(be.Y); ok {
+					remaining = exprKey(be.X)
+					max = k - 1
+					if be.Op == token.GTR {
+						max = k
+					}
+				}
+			}
+			if remaining == "" || max < 1 {
+				continue
+			}
+			// the switch over what is left, later in the same body
+			for _, later := range fd.Body.List[si+1:] {
+				sw, ok := later.(*ast.SwitchStmt)
+				if !ok || sw.Tag == nil || exprKey(sw.Tag) != remaining {
+					continue
+				}
+				pairs++
+				have := map[int64]bool{}
+				hasDefault := false
+				for _, cl := range sw.Body.List {
+					cc := cl.(*ast.CaseClause)
+					if cc.List == nil {
+						hasDefault = true
+					}
+					for _, e := range cc.List {
+						if v, ok := constOf(e); ok {
+							have[v] = true
+						}
+					}
+				}
+				var missing []string
+				for v := int64(1); v <= max; v++ {
+					if !have[v] {
+						missing = append(missing, fmt.Sprint(v))
+					}
+				}
+				key := c.declKey("soymsg", fd) + " block-loop/tail-switch"
+				c.check(len(missing) == 0 || hasDefault, "R10i", key, sw.Pos(), fmt.Sprintf("the loop leaves at most %d bytes and the switch has a case for each count", max),
+					fmt.Sprintf("the loop leaves up to %d bytes (%s), but the switch over them has no case for %s: inputs of that residual length lose their last bytes from the fingerprint, so different texts share an id", max, remaining, strings.Join(missing, ", ")))
+			}
+		}
+	}
+	c.floor("R10i", "block loop / tail switch pairs in the fingerprint hash", 1, pairs)
 }
